@@ -62,6 +62,48 @@ def copy_checks(ctx, rng, world):
                  detail={"error": str(ex)[:200], "log": h.log})
 
 
+def collection_copy_check(ctx, rng):
+    """HistogramCollection.copy(): members of the copy and of the original are independent of each other."""
+    import physt
+    from physt.histogram_collection import HistogramCollection
+    from .. import gen
+
+    rec = ctx.rec
+    rec.mon("C12.copy.equal")
+    e = gen.edges(rng, rng.randint(1, 6))
+    pairs = gen.pairs_from_edges(e)
+    hs = [physt.h1(np.asarray(gen.data_for_bins(rng, pairs, rng.randint(0, 15))), np.array(e), name=f"m{i}") for i in range(rng.randint(1, 3))]
+    col = HistogramCollection(*hs, name="col", title="T")
+    cp = col.copy()
+    with attach.quiet():
+        before_o = [snap.snapshot(x) for x in col.histograms]
+        before_c = [snap.snapshot(x) for x in cp.histograms]
+        if [snap.diff(a, b) for a, b in zip(before_o, before_c)] != [set()] * len(hs) or cp.name != col.name or cp.title != col.title:
+            rec.fail(monitor="C12.copy.equal", op="HistogramCollection.copy", symptom="collection copy differs from the original", diff=["members"], detail={})
+    target, other, snaps = (cp, col, before_o) if rng.random() < 0.5 else (col, cp, before_c)
+    try:
+        m = rng.choice(target.histograms)
+        v = np.asarray(gen.data_for_bins(rng, pairs, 4), dtype=float)
+        how = rng.randrange(4)
+        if how == 0:
+            m.fill_n(v)
+        elif how == 1:
+            m.fill(float(v[0]), 2.5)
+        elif how == 2:
+            m *= 3
+        else:
+            m.name = "renamed"
+            m.meta_data["k"] = 1
+    except Exception as ex:
+        rec.fail(monitor="C12.copy.equal", op="HistogramCollection.copy", symptom=f"member of a collection copy is not usable: {type(ex).__name__}", diff=["raised"], detail={"error": str(ex)[:160]})
+        return
+    with attach.quiet():
+        for x, b in zip(other.histograms, snaps):
+            d = snap.diff(b, snap.snapshot(x))
+            if d:
+                rec.fail(monitor="C12.copy.equal", op="HistogramCollection.copy", symptom="mutating a member on one side of a collection copy changed the other side", diff=sorted(d), detail={})
+
+
 def one_history(ctx, index: int, rng: random.Random):
     world = ctx.world
     world.clear()
@@ -69,6 +111,8 @@ def one_history(ctx, index: int, rng: random.Random):
     h.run(rng.randint(8, 30 if ctx.quick else 60), WEIGHTS)
     if rng.random() < 0.3:
         copy_checks(ctx, rng, world)
+    if rng.random() < 0.15:
+        collection_copy_check(ctx, rng)
     st = h.stats
     nontrivial = st["derivations"] >= 1 and st["grow"] >= 1
     ctx.rec.case(h.log, nontrivial, cls=f"deriv{min(st['derivations'], 5)}/grow{min(st['grow'], 3)}", sample={"log": h.log[:25], "stats": st})
